@@ -174,6 +174,29 @@ func (w *c14World) wait(want func(c14Event) bool) (c14Event, bool) {
 	}
 }
 
+// quiet reports whether an event accepted by want arrives within d; its absence is a normal outcome
+// (the case is not marked broken).
+func (w *c14World) quiet(want func(c14Event) bool, d time.Duration) bool {
+	for i, ev := range w.backlog {
+		if want(ev) {
+			w.backlog = append(w.backlog[:i], w.backlog[i+1:]...)
+			return true
+		}
+	}
+	deadline := time.After(d)
+	for {
+		select {
+		case ev := <-w.events:
+			if want(ev) {
+				return true
+			}
+			w.backlog = append(w.backlog, ev)
+		case <-deadline:
+			return false
+		}
+	}
+}
+
 func (w *c14World) waitFor(name, id string) (c14Event, bool) {
 	return w.wait(func(e c14Event) bool { return e.name == name && e.id == id })
 }
@@ -408,7 +431,7 @@ func genC14(rng *rand.Rand, tier string, w *bufio.Writer) {
 		fmt.Fprintf(w, "case %d\nlock a long\nlock a long hold\nlock a long\ncancel 2\nunlock 1\ngo 2\nunlock 2\nunlock 3\n", 2+i)
 	}
 	fmt.Fprintln(w, "case 6\nlock a long\nlock a long hold\nlock a long\ncancel 2\ngo 2\nunlock 1\nlock b long hold\ncancel 4\nlock b long\ngo 4")
-	fmt.Fprintln(w, "case 7\ngwttl -3\ngwttl 1000\ngwttl 1250\ngwcancel")
+	fmt.Fprintln(w, "case 7\ngwttl -3\ngwttl 1000\ngwttl 2000\ngwcancel")
 	// ids issued on one key used on another: holder and waiter of b must be untouched by a's ids
 	fmt.Fprintln(w, "case 8\nlock a long\nlock b long\nlock b long\nlock a long\nunlockx 1 b\nunlockx 2 a\nunlock 1\nunlockx 4 b\nunlock 2\nunlock 3\nunlock 4")
 	for c := 9; c < cases; c++ {
@@ -705,7 +728,8 @@ func c14Gateway(f []string, install func(*c14World)) string {
 		w.release(w.ttlWait, acq.id)
 		w.waitFor("lock.rm", acq.id)
 		ms := fired.Sub(acq.at).Milliseconds()
-		return fmt.Sprintf("gwttl %s eff=%d", f[1], (ms+125)/250*250)
+		// whole seconds, rounded down: the timer can only fire late, and up to 999 ms of lag are tolerated
+		return fmt.Sprintf("gwttl %s eff=%d", f[1], ms/1000*1000)
 	case "gwcancel":
 		key := fmt.Sprintf("gwcancel-%d", time.Now().UnixNano())
 		first, err := gw.Lock(context.Background(), &hydrapb.LockRequest{Key: key, TTL: 60000})
@@ -735,12 +759,7 @@ func c14Gateway(f []string, install func(*c14World)) string {
 		cancel()
 		// a cancellable wait would leave through the ctx.Done branch now
 		kept := "kept"
-		if ev, ok := func() (c14Event, bool) {
-			old := w.timeout
-			w.timeout = 150 * time.Millisecond
-			defer func() { w.timeout = old }()
-			return w.waitFor("lock.cancel", enq.id)
-		}(); ok && ev.name == "lock.cancel" {
+		if w.quiet(func(e c14Event) bool { return e.name == "lock.cancel" && e.id == enq.id }, 300*time.Millisecond) {
 			kept = "removed"
 		}
 		_, _ = gw.Unlock(context.Background(), &hydrapb.UnlockRequest{Key: key, LockID: first.LockID})
